@@ -32,6 +32,118 @@ pub fn yof(d: &NaiveDate) -> i64 {
     h.0
 }
 
+/// the single `write_i32` of `IsoWeek`'s derived `Hash`: the packed `ywf`
+pub fn ywf(w: &chrono::IsoWeek) -> i64 {
+    let mut h = Rec::default();
+    w.hash(&mut h);
+    h.0
+}
+/// independent year flags: bit 3 = common year, low bits = weekday (Mon = 0, written 7) of 31 December
+/// of the previous year
+fn ref_flags(y: i64) -> i64 {
+    let w = (day_num(y, 1, 0) + 6).rem_euclid(7);
+    (if is_leap(y) { 0 } else { 8 }) + if w == 0 { 7 } else { w }
+}
+type IsoViews = Result<(i64, i64, i64, i64), ()>;
+type ZeroViews = [Result<u32, ()>; 3];
+fn iso_views(d: &NaiveDate) -> (IsoViews, ZeroViews) {
+    let r = guard(|| {
+        let iw = d.iso_week();
+        (ywf(&iw), iw.year() as i64, iw.week() as i64, iw.week0() as i64)
+    });
+    (r, [guard(|| d.month0()), guard(|| d.day0()), guard(|| d.ordinal0())])
+}
+/// direct oracle for the packed ISO week, its three views and the 0-based twins: judged against the
+/// Thursday rule, the independent year flags and the independent month lengths
+fn iso_views_bad(d: &NaiveDate, r: &IsoViews, z: &ZeroViews) -> Vec<(&'static str, String)> {
+    let mut bad = vec![];
+    match r {
+        Ok((a, iy, w, w0)) => {
+            let (a, iy, w, w0) = (*a, *iy, *w, *w0);
+            // the Thursday of the date's Monday-based week is day `ot` of calendar year `ty`
+            let n = d.num_days_from_ce() as i64;
+            let thu = n - (n + 6).rem_euclid(7) + 3;
+            let mut ty = d.year() as i64;
+            if thu <= day_num(ty, 1, 0) {
+                ty -= 1;
+            } else if thu > day_num(ty + 1, 1, 0) {
+                ty += 1;
+            }
+            let ot = thu - day_num(ty, 1, 0);
+            if iy != ty || w != (ot - 1) / 7 + 1 || w0 != (ot - 1) / 7 {
+                bad.push(("iso_week year/week/week0 is not the year and week of the week's Thursday", format!("{} (Thursday = day {ot} of year {ty}; got {iy} {w} {w0})", show_obs(d))));
+            }
+            if a != iy * 1024 + w * 16 + ref_flags(iy) {
+                bad.push(("the packed IsoWeek is not year<<10 | week<<4 | flags of the ISO year", format!("{}: ywf {a}", show_obs(d))));
+            }
+        }
+        Err(()) => bad.push(("iso_week or an IsoWeek view panicked", gs(|| show_obs(d), |s| s))),
+    }
+    match z {
+        [Ok(m0), Ok(d0), Ok(o0)] => {
+            // judged against the independent calendar: month/day from the ordinal by month lengths
+            let (yy, mut rest, mut m) = (d.year() as i64, d.ordinal() as i64, 1i64);
+            while m < 12 && rest > month_len(yy, m) {
+                rest -= month_len(yy, m);
+                m += 1;
+            }
+            if (*m0 as i64, *d0 as i64, *o0 as i64) != (m - 1, rest - 1, d.ordinal() as i64 - 1) {
+                bad.push(("month0/day0/ordinal0 are not the calendar month, day, ordinal minus one", format!("{} -> {m0} {d0} {o0}", show_obs(d))));
+            }
+        }
+        _ => bad.push(("a 0-based accessor panicked", gs(|| show_obs(d), |s| s))),
+    }
+    bad
+}
+/// `di.isoweek` / `di.zero`: correspondence ops + the direct oracle
+fn check_iso_views(c: &mut Ctx, d: &NaiveDate) {
+    let y = yof(d);
+    let (r, z) = iso_views(d);
+    c.op(&format!("di.isoweek {y}"), &match r { Ok((a, b, w, w0)) => format!("{a} {b} {w} {w0}"), Err(()) => "panic".into() });
+    let one = |r: &Result<u32, ()>| match r { Ok(v) => v.to_string(), Err(()) => "panic".into() };
+    c.op(&format!("di.zero {y}"), &format!("{} {} {}", one(&z[0]), one(&z[1]), one(&z[2])));
+    for (what, detail) in iso_views_bad(d, &r, &z) {
+        c.fail(what, &detail);
+    }
+}
+/// digest of the packed ISO week, its views, the 0-based twins and the ISO-week comparison with the
+/// previous day, over every date of the years `y0..=y1` (`di.blockiso`); the direct oracle runs on each
+fn block_iso(y0: i32, y1: i32) -> (u64, Option<(&'static str, String)>) {
+    let mut h = 14695981039346656037u64;
+    let mut bad = None;
+    let mut prev: Option<NaiveDate> = None;
+    for y in y0..=y1 {
+        for o in 0..367u32 {
+            let d = match guard(|| NaiveDate::from_yo_opt(y, o)) {
+                Ok(Some(d)) => d,
+                _ => continue,
+            };
+            let (r, z) = iso_views(&d);
+            h = match r {
+                Ok((a, b, w, w0)) => [a, b, w, w0].iter().fold(h, |h, v| mix(h, *v)),
+                Err(()) => mix(h, -2),
+            };
+            for v in &z {
+                h = mix(h, match v { Ok(v) => *v as i64, Err(()) => -2 });
+            }
+            if let Some(p) = prev {
+                let cmp = guard(|| p.iso_week().cmp(&d.iso_week()) as i64);
+                h = mix(h, cmp.unwrap_or(-2));
+                // consecutive days: the ISO week steps up exactly from Sunday to Monday
+                let expect = if d.weekday() == Weekday::Mon { -1 } else { 0 };
+                if bad.is_none() && p.succ_opt() == Some(d) && cmp != Ok(expect) {
+                    bad = Some(("ISO weeks of consecutive days do not compare as same week / next week", format!("{} then {}", show_obs(&p), show_obs(&d))));
+                }
+            }
+            if bad.is_none() {
+                bad = iso_views_bad(&d, &r, &z).into_iter().next();
+            }
+            prev = Some(d);
+        }
+    }
+    (h, bad)
+}
+
 pub fn obs(d: &NaiveDate) -> [i64; 10] {
     let iw = d.iso_week();
     [
@@ -273,6 +385,18 @@ pub fn run(c: &mut Ctx) {
         }
         c.count_n("dates:enumerated-in-digests", ((*y1 - *y0 + 1) as u64) * 365);
     }
+    // the ISO-week word, its views, the 0-based twins and the ISO-week order of consecutive days: one whole
+    // 400-year cycle (all 14 year classes in every neighbourhood) and both range ends, in both tiers
+    let mut iso_blocks: Vec<(i32, i32)> = (0..20).map(|i| (1800 + 20 * i, 1819 + 20 * i)).collect();
+    iso_blocks.extend([(MIN_YEAR - 1, MIN_YEAR + 2), (MAX_YEAR - 2, MAX_YEAR + 1), (-3, 3)]);
+    for (y0, y1) in &iso_blocks {
+        let (h, bad) = block_iso(*y0, *y1);
+        c.op(&format!("di.blockiso {y0} {y1}"), &h.to_string());
+        if let Some((what, detail)) = bad {
+            c.fail(what, &detail);
+        }
+        c.count_n("dates:iso-views-enumerated-in-digests", ((*y1 - *y0 + 1) as u64) * 365);
+    }
     let ymd_blocks: Vec<(i32, i32)> = if c.tier == Tier::Quick {
         vec![(1896, 1905), (1996, 2005), (2096, 2104), (MIN_YEAR - 1, MIN_YEAR + 1), (MAX_YEAR - 1, MAX_YEAR + 1), (-2, 2)]
     } else {
@@ -408,6 +532,7 @@ pub fn run(c: &mut Ctx) {
         if days != i32::MIN {
             c.op(&format!("d.add {y} {days}"), &match r { Ok(o) => syof(o), Err(()) => "panic".into() });
         }
+        check_iso_views(c, &d);
         // direct oracles
         if let Err(e) = derived_views(&d) {
             c.fail("a derived view (0-based twin, trait copy, year_ce, own-field constructor) disagrees", &e);
@@ -434,8 +559,8 @@ pub fn run(c: &mut Ctx) {
         }
         match p {
             Ok(Some(x)) => {
-                if x.num_days_from_ce() as i64 != n - 1 || !(x < d) {
-                    c.fail("predecessor is not the previous day", &show_obs(&d));
+                if x.num_days_from_ce() as i64 != n - 1 || x.weekday() != d.weekday().pred() || !(x < d) {
+                    c.fail("predecessor is not the previous day with the previous weekday", &show_obs(&d));
                 }
             }
             Ok(None) => {
@@ -470,6 +595,8 @@ pub fn run(c: &mut Ctx) {
             if (q.cmp(&d) as i32) != ((q.num_days_from_ce().cmp(&d.num_days_from_ce())) as i32) {
                 c.fail("date order differs from day-number order", &format!("{} vs {}", show_obs(&q), show_obs(&d)));
             }
+            // the derived `Ord` of `IsoWeek`, against the model's order of the packed `ywf`
+            c.op(&format!("di.isocmp {a} {b}"), &gs(|| q.iso_week().cmp(&d.iso_week()) as i32, |x| x.to_string()));
             if (q.iso_week().cmp(&d.iso_week()) as i32) * ((q.cmp(&d)) as i32) < 0 {
                 c.fail("ISO weeks compare against chronological order", &format!("{} vs {}", show_obs(&q), show_obs(&d)));
             }
